@@ -256,7 +256,7 @@ generic(
     "C02", "model_checking",
     quick=[
         dict(scope="tree", mode="simulate", num=60, depth=8, limit=500, mc_maxgens=1, invariants=INV_C02),
-        dict(scope="nest", mode="simulate", num=60, depth=8, limit=400, mc_maxgens=1, invariants=INV_C02),
+        dict(scope="nest", mode="simulate", num=60, depth=8, limit=500, mc_maxgens=1, invariants=INV_C02, variants=[{"names": "plain"}, {"names": "mixed", "sfrev": True}, {"names": "nfd"}]),
         dict(scope="ign", mode="simulate", num=40, depth=7, limit=300, mc=False),
         dict(scope="deep", mode="simulate", num=30, depth=8, maxops=12, maxgens=30, limit=300, mc=False),
     ],
@@ -300,15 +300,17 @@ generic(
     "C08", "model_checking",
     quick=[
         dict(scope="nest", mode="simulate", num=120, depth=9, limit=700, mc_maxgens=2, invariants=INV_C08),
-        dict(scope="deep", mode="simulate", num=30, depth=8, maxops=12, maxgens=30, limit=500, mc=False),
+        dict(scope="deep", mode="simulate", num=30, depth=8, maxops=12, maxgens=30, limit=400, mc=False),
+        dict(scope="nest2f", mode="simulate", num=30, depth=8, limit=400, mc_maxgens=2, invariants=INV_C08),
     ],
     thorough=[
         dict(scope="nest", mode="simulate", num=800, depth=11, mc_maxgens=3, invariants=INV_C08),
         dict(scope="deep", mode="simulate", num=300, depth=10, maxops=14, maxgens=40, limit=5000, mc_maxgens=12, invariants=INV_C08),
         dict(scope="fmt3n", mode="simulate", num=300, depth=6, mc_maxgens=3, invariants=INV_C08),
+        dict(scope="nest2f", mode="simulate", num=400, depth=10, limit=4000, mc_maxgens=3, invariants=INV_C08),
         dict(scope="ign", mode="simulate", num=300, depth=8, mc=False),
     ],
-    pclauses=["P_C08_Partition", "P_C08_ChildRoot", "P_C08_Refs", "P_C08_WhoWrites", "P_C08_RefBytes", "P_C08_Order"],
+    pclauses=["P_C08_Partition", "P_C08_ChildRoot", "P_C08_Refs", "P_C08_WhoWrites", "P_C08_RefBytes", "P_C08_Order", "P_C08_ChildRootBytes", "P_C07_Recorded"],
     antecedent=lambda ln, v: is_create(ln) and nested(ln) and wrote_something(ln),
     antecedent_text="a create / create -sf that wrote a generation while at least two (nested) histories exist",
 )
@@ -317,12 +319,14 @@ INV_C12 = ["Inv_C12_Excluded", "Inv_C12_Accumulate", "Inv_C03_Quiet", "Inv_C02_R
 generic(
     "C12", "model_checking",
     quick=[
-        dict(scope="ign", mode="simulate", num=120, depth=8, limit=900, mc_maxgens=1, invariants=INV_C12),
+        dict(scope="ign", mode="simulate", num=120, depth=8, limit=800, mc_maxgens=1, invariants=INV_C12, variants=[{"names": "plain"}, {"names": "mixed", "augment": True}]),
+        dict(scope="igndh", mode="simulate", num=80, depth=8, limit=900, mc_maxgens=1, invariants=INV_C12 + ["Inv_C09_Identical"], variants=[{"names": "plain", "augment": True}, {"names": "space"}]),
     ],
     thorough=[
-        dict(scope="ign", mode="simulate", num=1200, depth=10, mc_maxgens=2, invariants=INV_C12),
+        dict(scope="ign", mode="simulate", num=1200, depth=10, mc_maxgens=2, invariants=INV_C12, variants=[{"names": "plain"}, {"names": "mixed", "augment": True}]),
+        dict(scope="igndh", mode="simulate", num=600, depth=10, limit=5000, mc_maxgens=2, invariants=INV_C12 + ["Inv_C09_Identical"], variants=[{"names": "plain", "augment": True}, {"names": "space"}]),
     ],
-    pclauses=["P_C12_Excluded", "P_C12_Accumulate", "P_C03_Quiet", "P_C07_Recorded", "P_C02_RecordSet"],
+    pclauses=["P_C12_Excluded", "P_C12_Accumulate", "P_C03_Quiet", "P_C07_Recorded", "P_C02_RecordSet", "P_C09_Identical", "P_C03_NoFalseAlarm"],
     antecedent=lambda ln, v: bool(v.get("A_ign")),
     antecedent_text="a command whose effective ignore patterns match at least one existing path",
 )
@@ -332,7 +336,7 @@ INV_C14 = ["Inv_C14_Frame", "Inv_C06_AppendOnly", "Inv_NoInternal"]
 generic(
     "C14", "model_checking",
     quick=[
-        dict(scope="cmds", mode="simulate", num=60, depth=10, limit=600, mc_maxgens=1, invariants=INV_C14),
+        dict(scope="cmds", mode="simulate", num=60, depth=10, limit=600, mc_maxgens=1, invariants=INV_C14, variants=[{"names": "plain"}, {"names": "mixed", "flatrel": True}, {"names": "xml", "spelling": "rel"}]),
         dict(scope="nest", mode="simulate", num=40, depth=8, limit=300, mc=False),
     ],
     thorough=[
@@ -349,7 +353,7 @@ generic(
 INV_C18 = ["Inv_C18_Summary", "Inv_C18_VerifyPL", "Inv_C14_Frame"]
 generic(
     "C18", "model_checking",
-    quick=[dict(scope="flat", mode="simulate", num=120, depth=11, limit=900, mc_maxgens=1, invariants=INV_C18)],
+    quick=[dict(scope="flat", mode="simulate", num=120, depth=11, limit=900, mc_maxgens=1, invariants=INV_C18, variants=[{"names": "plain"}, {"names": "mixed", "flatrel": True}, {"names": "unicode"}])],
     thorough=[dict(scope="flat", mode="simulate", num=1500, depth=13, mc_maxgens=3, invariants=INV_C18)],
     pclauses=["P_C18_Summary", "P_C18_VerifyPL", "P_C18_Valid", "P_C14_Frame"],
     antecedent=lambda ln, v: ln["op"]["op"] in ("flatten", "verifypl") and ln["exit"] != 30 and has_history(ln),
@@ -743,7 +747,7 @@ def c11(tier, seed):
     if tier == "thorough":
         plans = [dict(p, num=400, limit=3000) for p in plans] + [dict(scope="ren", mode="simulate", num=200, depth=9, limit=1500, mc=False, variants=aug),
                                                                  dict(scope="dh6", mode="simulate", num=200, depth=9, limit=1500, mc=False, variants=aug)]
-    history_campaign(out, "C11", plans, pclauses=["P_C11_Valid", "P_C18_Valid"], antecedent=lambda ln, v: wrote_something(ln), seed=seed)
+    history_campaign(out, "C11", plans, pclauses=["P_C11_Valid", "P_C18_Valid", "P_C11_ToolAgrees"], antecedent=lambda ln, v: wrote_something(ln), seed=seed)
     out.coverage["rule"] = HIST_RULE + XML_RULE + " History campaigns run with option variations: creator options, -ii pattern files, repeated -h, files named several times with -sf."
     out.assumptions = COMMON_ASSUMPTIONS + ["lxml's XSD validator is the oracle for validity; the transcribed automaton must agree with it on every case (incl. negative controls)"]
     return out
